@@ -67,7 +67,7 @@ func sysstepBin(c *ev.Ctx) string { return filepath.Join(c.WorkDir, "bin", "syss
 func runGxz(c *ev.Ctx, dir string, args []string, inj inject, countStdout bool, stdin []byte) gxzResult {
 	var res gxzResult
 	logp := filepath.Join(dir, "..", filepath.Base(dir)+".syslog")
-	a := []string{"-p", dir, "-o", logp}
+	a := []string{"-p", dir, "-r", "-o", logp}
 	if countStdout {
 		a = append(a, "-1")
 	}
